@@ -2,6 +2,7 @@ import Gimli.Lemmas.Value
 import Gimli.Lemmas.OpTotal
 import Gimli.Lemmas.Capacity
 import Gimli.Lemmas.SimRun
+import Gimli.Lemmas.IterWrap
 /-!
 # C07 — Expression decoding and evaluation equal the DWARF stack machine
 
@@ -140,6 +141,20 @@ theorem iter_limit_terminates (m : Nat) (hm : m + 1 < 2 ^ 32) (fuel : Nat) (s : 
     (hmax : s.cfg.maxIterations = some m) (hit : s.iteration ≤ m) (hf : m + 2 ≤ fuel + s.iteration) :
     (evaluateInternal fuel s).Normal :=
   evalInternal_terminates m hm fuel s hmax hit hf
+
+/-- **`iter_limit` is false for `max_iterations = u32::MAX`** (finding C07-2; the reason for the
+hypothesis `m + 1 < 2^32` above). On the endless loop `DW_OP_skip -3` with that limit, in a build
+without overflow checks the evaluator never reports the limit, whatever the fuel: the `u32` counter
+wraps from `u32::MAX` to 0. -/
+theorem iter_limit_u32_max_counterexample (fuel it dec : Nat) (hit : it < 2 ^ 32) :
+    evaluateInternal fuel (loopState .release it dec) = .diverge :=
+  selfLoop_release_never_stops fuel it dec hit
+
+/-- … and in a build with overflow checks the increment panics after `u32::MAX` iterations
+(observed on the real crate at `src/read/op.rs:2024`). -/
+theorem iter_limit_u32_max_panics (dec : Nat) :
+    evaluateInternal ((2 ^ 32 - 1) + 1) (loopState .debug 0 dec) = .panic "attempt to add with overflow" :=
+  selfLoop_debug_panics (2 ^ 32 - 1) 0 dec (by omega)
 
 /-- a looping program: the limit error, not a hang (`DW_OP_skip -3` forever, limit 5) -/
 example :
